@@ -3,6 +3,7 @@ mod chain;
 mod dlog;
 mod expr;
 mod chainrec;
+mod keycodec;
 mod keys;
 mod layout;
 mod params;
@@ -35,6 +36,7 @@ fn main() {
         "ver-replay" => ver::cmd_replay(&args[2], &args[3]),
         "params-replay" => params::cmd_replay(&args[2], &args[3]),
         "syntax-replay" => syntax::cmd_replay(&args[2], &args[3]),
+        "keys-replay" => keycodec::cmd_replay(&args[2], &args[3], args[4].parse().unwrap()),
         "auth-replay" => auth::cmd_replay(&args[2], &args[3]),
         "dlog-replay" => dlog::cmd_replay(&args[2], &args[3]),
         "chain-honest" => chain::cmd_honest(&args[2], &args[3]),
